@@ -242,6 +242,24 @@ Proof.
   split; auto. intros ops F. now apply (run_R (sec ts) t k 0).
 Qed.
 
+(* the multi-key / multi-member reads (EXISTS k1 k2 .., MGET, HMGET / HGET, SISMEMBER, ZSCORE) with a read clock at or after
+   the expiry second of a key answer exactly as on the store without that key - whatever the other arguments are *)
+Theorem expired_like_absent_multiread s now t k h : Inv s -> now <> 0 ->
+  hdr_of s t k = Some h -> is_expired Compact h now = true ->
+  (forall ks, read_exists Compact s now ks = read_exists Compact (erase s t k) now ks) /\
+  (forall ks, read_mget Compact s now ks = read_mget Compact (erase s t k) now ks) /\
+  (forall t' k' m, read_elem Compact s now t' k' m = read_elem Compact (erase s t k) now t' k' m).
+Proof.
+  intros I Hts H E.
+  assert (D : hdead (sec now) h) by (apply is_expired_spec in E; unfold hdead; lia).
+  destruct (hdr_of_garbage (sec now) s t k h H D) as (G & Er & Fo).
+  pose proof (drop_R (sec now) s _ I G) as X. rewrite Fo, Er in X. simpl in X.
+  split; [|split].
+  - intros ks. now apply (read_exists_R (sec now) t k 0 now Hts (Z.le_refl _)).
+  - intros ks. now apply (read_mget_R (sec now) t k 0 now Hts (Z.le_refl _)).
+  - intros t' k' m. now apply (read_elem_R (sec now) t k 0 now Hts (Z.le_refl _)).
+Qed.
+
 (* the bytes stored under an expired KV header have no influence on anything later *)
 Theorem dead_value_irrelevant T s k h v1 v2 ops : Inv s -> hdead T h -> Forall (op_ok T 0) ops ->
   run (kv_put s k h v1) ops = run (kv_put s k h v2) ops.
